@@ -38,6 +38,30 @@ add("C19", "runtime contract monitors on fit_mvstud / ModeStatistics: well-posed
 add("C20", "runtime contract monitors on effective_sample_size / compute_ess / trim_weights / volume_variation with long-double references and conditioning-aware affine pairs",
     "ESS bounds/scale/uniform, exact threshold-set trimming contract and volume-metric invariances asserted on 3000 (quick) / 1e5 (thorough) generated weight vectors (600-decade range, zeros, ties).",
     "Trusted: long-double ESS; affine clause judged only when 1000*eps*kappa <= 1e-2.")
+add("C07", "invariant at hooks: after Resampler.run / Mutator.run / every commit / sample() / posterior(), every particle row is looked up in the instrumented likelihood's evaluation log (unique ids in blobs) and x re-derived from u",
+    "Every particle row at every step boundary of 21 (quick) / ~150 (thorough) monitored runs over a covering array of the option lattice (3e4-1e6 rows) is identified with the evaluation it came from; a split record (field moved alone) cannot match the log.",
+    "Trusted: purity of the harness' prior transform and likelihood; x bytes / blob ids as record identity.")
+add("C08", "fault enumeration: kill points before every I/O call of a checkpoint save and at byte offsets inside writes (in-process engine; strace syscall injection in thorough); digests of restored state vs digest hooked at save time; resumed runs monitored",
+    "Every checkpoint of save_every=1 runs in 6/16 configurations is restored and compared bitwise; resumes checked for prefix identity, numbering, call counting, schedule and postconditions; every I/O call boundary of a save (open/write/flush/fsync/close/replace) plus byte offsets is a crash point in first-save and overwrite scenarios.",
+    "Trusted: process death only (no power-loss semantics); sha256 digests.", category="fault_enumeration")
+add("C09", "runtime monitor: bitwise digests of paired seeded runs; global RNG state hashes at the exit of every library operation under three ambient seeds; reseed log from the np.random interposer",
+    "Reproducibility decided bitwise on 8/160 construct+run pairs; the reset clause decided deterministically per operation (state equality across ambient seeds is the witness) over 40-150 operation instances covering mixture fits, mode statistics, every pipeline step and the public sampler calls.",
+    "Trusted: all tempest randomness flows through numpy's legacy global stream (tap counters show it).")
+add("C11", "runtime monitor: instrumented likelihood counts finite/-inf evaluations per warm-up batch, hull oracle on every recorded beta=0 evidence; stored -inf checked at step hooks; final evidence by two-stage replicate rule",
+    "Hull test is exact per warm-up iteration on 50/300 traced runs (f in 0.15..1, 2-6 warm-up iterations); final evidence judged on R=32/96 replicates per cell.",
+    "Trusted: closed-form evidence of the truncated Gaussian target; Rule S thresholds (DESIGN 2.6).")
+add("C12", "runtime monitor: run() postconditions against the reference MIS model; all 16 posterior() option combinations x trimming parameters with row identity through the evaluation log",
+    "Postconditions and the full posterior() contract (lengths, normalisation, uniformity, row alignment of x/logL/blob/logw/weights) decided on every completed run of a covering array (8 quick / ~100 thorough) x 16 combos x 3-6 trimming settings.",
+    "Trusted: long-double MIS reference; log-weights compared up to one additive constant per call.")
+add("C13", "runtime monitor over evaluation schedules: same seed under vectorised / scalar / reversed / permuted / delayed ThreadPool / integer pools, sha256 of histories, cross-process evaluation counter",
+    "Transparency decided bitwise across 5-7 schedules x 4-6 configurations x 2-8 seeds (out-of-order completions are counted to show the schedules really differed); calls compared with a counter shared across threads and processes.",
+    "Trusted: the harness likelihood is pointwise identical in all modes (vectorised mode evaluates row by row).")
+add("C14", "invariant at the kernel boundary (hook on parallel_mcmc): assignment < K, mode finite/SPD/positive dof, mode location inside the bounding box of the training particles carrying that label; synthetic dying-mode pools through the real Trainer/Resampler, monitored runs, resume points",
+    "300/5000 synthetic pool sequences (4-8 consecutive iterations, cluster_every 1-5, caps, sudden mode death) and 24/300 monitored runs incl. resume; iterations with a label gap are counted so that the evidence shows the hostile case was reached.",
+    "Trusted: a Student-t fit's location lies in its data's bounding box (C19); labels with <= n_dim distinct training points are not judged.")
+add("C18", "runtime monitor over covering arrays of the constructor option lattice, each row in its own process under an iteration budget, postconditions against the reference model; one-factor invalid values with call counters on the instrumented user callables",
+    "Pairwise (38 rows) / 3-wise (~600 rows) coverage of 16 options incl. default n_particles, integer pools, save_every, boundary kinds; 34 invalid values x context variants must be rejected before any user callable is invoked.",
+    "Trusted: greedy covering-array generator (coverage of t-tuples is computed, infeasible tuples dropped).")
 
 NOT_YET = {}
 
